@@ -1,5 +1,5 @@
 use std::fs::File;
-use std::io::{BufRead, BufReader, Seek, SeekFrom};
+use std::io::{BufReader, Seek, SeekFrom};
 use std::iter::FromIterator;
 use std::str::FromStr;
 use std::sync::Arc;
@@ -7,7 +7,7 @@ use std::sync::atomic::{AtomicBool, Ordering};
 
 use crate::execution::{ExecutionError, ExecutionResult, ResultRow};
 use crate::execution::execution_engine::{ExecutionConfig, ExecutionEngine};
-use crate::helpers::FollowFileIterator;
+use crate::helpers::{FollowFileIterator, lossy_lines};
 
 pub struct ExecutionStatistics {
     execution_start: std::time::Instant,
@@ -89,7 +89,7 @@ impl<'a, TPrinter: Printer> FileExecutor<'a, TPrinter> {
                 break;
             }
 
-            for line in reader.lines() {
+            for line in lossy_lines(reader) {
                 #[cfg(feature="verif_hooks")]
                 {
                     crate::verif_hooks::batch_line(verif_file_index - 1, verif_line_index);
